@@ -8,17 +8,18 @@ For a well-typed value `x` of a type in the common support, whose set elements a
 * `(D)`  BaseConverter by declared type   ≈  Converter by declared type           (top level, class fields)
 where `≈` is equality after `normSeq`.
 -/
-namespace CattrsModel
+namespace CattrsModel.GenInterp
+open CattrsModel
 variable (w : World)
 
 theorem un_agree_aux (cB cG : Cfg) (hws : w.SupU false)
     (hB : cB.gen = false) (hG : cG.gen = true) (hT : cB.tupleStrat = cG.tupleStrat)
-    (hI : cG.tupleStrat = true ∨ w.AllInit) :
+    (hI : cG.tupleStrat = true ∨ (AllInit w)) :
     ∀ (n : Nat),
-      (∀ (x : Obj), sizeOf x ≤ n → wellTypedAny w x = true → x.scalarKeys = true →
+      (∀ (x : Obj), sizeOf x ≤ n → wellTypedAny w x = true → (scalarKeys x) = true →
         normSeq (unAny w cB x) = normSeq (unAny w cG x)) ∧
       (∀ (m : Nat) (t : Ty) (x : Obj), sizeOf x ≤ n → sizeOf t ≤ m → t.supU false = true →
-        wellTyped w t x = true → x.scalarKeys = true →
+        wellTyped w t x = true → (scalarKeys x) = true →
         normSeq (unAny w cB x) = normSeq (un w cG t x) ∧ normSeq (un w cB t x) = normSeq (un w cG t x)) := by
   intro n
   induction n with
@@ -35,7 +36,7 @@ theorem un_agree_aux (cB cG : Cfg) (hws : w.SupU false)
       · rw [ht] at h; cases h
       · simp [emits, h c f hf]
     -- one field position of an instance whose field list is smaller than `n`
-    have hField : ∀ (c : Nat) (fs : List (String × Obj)), sizeOf fs ≤ n → Obj.scalarKeysF fs = true →
+    have hField : ∀ (c : Nat) (fs : List (String × Obj)), sizeOf fs ≤ n → scalarKeysF fs = true →
         ∀ f ∈ w.fields c, ∀ p ∈ fs, wtField w f p.2 = true →
           normSeq (unField w cB f p.2) = normSeq (unField w cG f p.2) := by
       intro c fs hfs hsk f hf p hp hwt
@@ -52,7 +53,7 @@ theorem un_agree_aux (cB cG : Cfg) (hws : w.SupU false)
         exact (ihU (sizeOf t) t p.2 (by omega) (Nat.le_refl _) (hws.fieldsOK c f hf t hty) hwt hp2).2
     -- instances: both engines walk the same field list
     have hInst : ∀ (c : Nat) (fs : List (String × Obj)), sizeOf fs ≤ n → wellTypedF w (w.fields c) fs = true →
-        Obj.scalarKeysF fs = true →
+        scalarKeysF fs = true →
         normSeq (if cB.tupleStrat then Obj.coll .tuple (unFieldsT w cB (w.fields c) fs) else .dict (unFields w cB (w.fields c) fs))
           = normSeq (if cG.tupleStrat then Obj.coll .tuple (unFieldsT w cG (w.fields c) fs) else .dict (unFields w cG (w.fields c) fs)) := by
       intro c fs hfs hwt hsk
@@ -65,7 +66,7 @@ theorem un_agree_aux (cB cG : Cfg) (hws : w.SupU false)
         simp only [normSeq]
         rw [normKV_unFields w cB cG _ fs hwt
           (fun f hf => ⟨(hEm c f hf).1, (hEm c f hf).2 (by simpa using ht)⟩) (hField c fs hfs hsk)]
-    have hAny : ∀ (x : Obj), sizeOf x ≤ n + 1 → wellTypedAny w x = true → x.scalarKeys = true →
+    have hAny : ∀ (x : Obj), sizeOf x ≤ n + 1 → wellTypedAny w x = true → (scalarKeys x) = true →
         normSeq (unAny w cB x) = normSeq (unAny w cG x) := by
       intro x hx hwt hsk
       cases x with
@@ -73,7 +74,7 @@ theorem un_agree_aux (cB cG : Cfg) (hws : w.SupU false)
       | coll ck xs =>
         rw [wellTypedAny] at hwt
         have hel := (wellTypedAnyL_iff w xs).mp hwt
-        simp only [Obj.scalarKeys, Bool.and_eq_true, Bool.or_eq_true, Bool.not_eq_true'] at hsk
+        simp only [scalarKeys, Bool.and_eq_true, Bool.or_eq_true, Bool.not_eq_true'] at hsk
         have hskl := (scalarKeysL_iff xs).mp hsk.2
         simp at hx
         rw [unAny, unAny]
@@ -94,7 +95,7 @@ theorem un_agree_aux (cB cG : Cfg) (hws : w.SupU false)
       | dict kvs =>
         rw [wellTypedAny] at hwt
         have hel := (wellTypedAnyKV_iff w kvs).mp hwt
-        rw [Obj.scalarKeys] at hsk
+        rw [scalarKeys] at hsk
         have hskl := (scalarKeysKV_iff kvs).mp hsk
         simp at hx
         rw [unAny, unAny]
@@ -105,7 +106,7 @@ theorem un_agree_aux (cB cG : Cfg) (hws : w.SupU false)
           exact ⟨unAny_scalar w cB cG (hskl p hp).1, ihA p.2 (by omega) (hel p hp).2 (hskl p hp).2⟩)]
       | inst c fs =>
         rw [wellTypedAny] at hwt
-        rw [Obj.scalarKeys] at hsk
+        rw [scalarKeys] at hsk
         simp at hx
         rw [unAny, unAny]
         exact hInst c fs (by omega) hwt hsk
@@ -151,7 +152,7 @@ theorem un_agree_aux (cB cG : Cfg) (hws : w.SupU false)
           obtain ⟨hck, hwl⟩ := hwt
           have hel := (wellTypedL_iff w t' xs).mp hwl
           have hs' : t'.supU false = true := by simpa [Ty.supU] using hs
-          simp only [Obj.scalarKeys, Bool.and_eq_true, Bool.or_eq_true, Bool.not_eq_true'] at hsk
+          simp only [scalarKeys, Bool.and_eq_true, Bool.or_eq_true, Bool.not_eq_true'] at hsk
           have hskl := (scalarKeysL_iff xs).mp hsk.2
           simp at hx
           have key : normSeq (mkColl ck (unAnyL w cB xs)) = normSeq (mkColl k.unstructTo (unL w cG t' xs)) := by
@@ -191,7 +192,7 @@ theorem un_agree_aux (cB cG : Cfg) (hws : w.SupU false)
           rw [wellTyped] at hwt
           have hel := (wellTypedKV_iff w kt vt kvs).mp hwt
           simp only [Ty.supU, Bool.and_eq_true] at hs
-          rw [Obj.scalarKeys] at hsk
+          rw [scalarKeys] at hsk
           have hskl := (scalarKeysKV_iff kvs).mp hsk
           simp at hx
           have key : normSeq (.dict (mkDict (unAnyKV w cB kvs))) = normSeq (.dict (mkDict (unKV w cG kt vt kvs))) := by
@@ -238,7 +239,7 @@ theorem un_agree_aux (cB cG : Cfg) (hws : w.SupU false)
           simp only [wellTyped, Bool.and_eq_true, beq_iff_eq] at hwt
           obtain ⟨hc, hwf⟩ := hwt
           subst hc
-          rw [Obj.scalarKeys] at hsk
+          rw [scalarKeys] at hsk
           simp at hx
           rw [unAny, un, un]
           have := hInst c fs (by omega) hwf hsk
@@ -246,4 +247,4 @@ theorem un_agree_aux (cB cG : Cfg) (hws : w.SupU false)
         | _ => simp [wellTyped] at hwt
       | td c => simp [Ty.supU] at hs
 
-end CattrsModel
+end CattrsModel.GenInterp
